@@ -36,13 +36,15 @@ TagKeys       == TagValidKeys \cup TagSynthKeys \cup TagBadKeys
 AnnValidKeys  == {"ann:valid","ann:valid2","ann:neg","ann:plus"}   \* suffix is an i64 inside the calendar
 AnnBadKeys    == {"ann:empty","ann:nonnum","ann:far","ann:huge","ann:negfar","ann:fw","ann:sep"}
 AnnKeys       == AnnValidKeys \cup AnnBadKeys
-DepValidKeys  == {"dep:t2","dep:t3","dep:self","dep:missing"}      \* suffix parses as a uuid
+\* suffix parses as a uuid; "dep:t2alt" names t2 in another spelling of its uuid (upper case,
+\* un-hyphenated, ...): a second key for the same dependency
+DepValidKeys  == {"dep:t2","dep:t2alt","dep:t3","dep:self","dep:missing"}
 DepBadKeys    == {"dep:empty","dep:malformed","dep:sep"}
 DepKeys       == DepValidKeys \cup DepBadKeys
 UdaKeys       == {"uda:plain","uda:ns","uda:near","uda:empty"}     \* none of the recognised ones
 AllKeys       == PropKeys \cup TagKeys \cup AnnKeys \cup DepKeys \cup UdaKeys
 
-DepTarget(k) == CASE k = "dep:t2" -> "t2" [] k = "dep:t3" -> "t3" [] k = "dep:self" -> "t1"
+DepTarget(k) == CASE k = "dep:t2" -> "t2" [] k = "dep:t2alt" -> "t2" [] k = "dep:t3" -> "t3" [] k = "dep:self" -> "t1"
                   [] k = "dep:missing" -> "t9" [] OTHER -> "?"
 
 (* Value tokens. *)
@@ -144,6 +146,8 @@ RL(m, blk, blkg, f) ==
 RLLen(m, blk, blkg, f) ==
   IF f = "get_tags"
   THEN Cardinality(UserTags(m)) + Cardinality(KeySynth(m)) + Cardinality(SynthTags(m, blk, blkg))
+  \* one entry per dep_ key: the same task named by two spellings of its uuid is listed twice
+  ELSE IF f = "get_dependencies" THEN Cardinality(Present(m) \cap DepValidKeys)
   ELSE Cardinality(RL(m, blk, blkg, f))
 TaskListCalls == {"get_tags","get_dependencies","data.properties","get_annotations","get_udas",
                   "get_legacy_udas","get_user_defined_attributes","data.iter","get_taskmap"}
